@@ -1,6 +1,7 @@
 import Chewing.Model.Basic
 import Chewing.Model.Syllable
 import Chewing.Gen.CliFormat
+import Chewing.Gen.CliTrieCmp
 /-!
 Model of the dictionary compiler / dumper of the command-line tool
 (`tools/src/init_database.rs`, `tools/src/dump.rs`) and, at the level of entry lists, of the two
@@ -269,12 +270,18 @@ def textLt : Text → Text → Bool
 
 def utf8Size (s : Text) : Nat := (s.map utf8Len).foldl (· + ·) 0
 
-/-- the comparator of `TrieBuilder::write` returns `Less` -/
-def phraseLess (a b : PF) : Bool :=
+/-- the comparator of `TrieBuilder::write` returns `Less`; `mode` selects the arm for a pair of which exactly
+    one is one character long: 0 = `a.len().cmp(&b.len())` (UTF-8 lengths), otherwise the one-character
+    phrase first (`(1, _) => Less, (_, 1) => Greater`) -/
+def phraseLessM (mode : Nat) (a b : PF) : Bool :=
   if a.1.length == 1 && b.1.length == 1 then false
-  else if a.1.length == 1 || b.1.length == 1 then utf8Size a.1 < utf8Size b.1
+  else if a.1.length == 1 || b.1.length == 1 then
+    (if mode == 0 then decide (utf8Size a.1 < utf8Size b.1) else a.1.length == 1)
   else if a.2 == b.2 then textLt b.1 a.1
   else b.2 < a.2
+
+/-- … with the arm the current source has (`Gen.trieMixedCmp`) -/
+def phraseLess (a b : PF) : Bool := phraseLessM trieMixedCmp a b
 
 /-- insertion from the right into the reversed sorted prefix -/
 def insertRev {α : Type} (lt : α → α → Bool) (x : α) : List α → List α
